@@ -424,22 +424,42 @@ def run_case(case, cs=None):
     path = case.get("path", "lambda")
     fld = lam_field(cs, F, path)
     detail = {}
+    skipped = []
+    real_integrate = A.integrate
+    count = [0]
+
+    def counting_integrate(*a_, **k_):
+        count[0] += 1
+        return real_integrate(*a_, **k_)
+
+    def call(fn_, *args):
+        """run a library function; it must hand an integrand to sympy.integrate (a result produced without integrating is
+        a broken tie: the captured-integrand lemmas say nothing about it)"""
+        before = count[0]
+        A.integrate = counting_integrate
+        try:
+            out = fn_(*args)
+        finally:
+            A.integrate = real_integrate
+        if count[0] == before:
+            skipped.append(f"{fn_.__name__} returned {out} without calling integrate")
+        return out
     if kind == "stokes":         # closed boundary curve(s) vs surface
         if case.get("params") == "base_scalars":     # non-parametrised: the base scalars x, y are the parameters
             bx, by = cs.coord_system.base_scalars()[0], cs.coord_system.base_scalars()[1]
             loc = {"x": bx, "y": by}
             surf = [sympy.sympify(e, locals=loc) for e in case["surface"]]
             (ua, ub), (va, vb) = [[sympy.sympify(e, locals=loc) for e in l] for l in case["limits"]]
-            rhs = A.circulation_along_surface_boundary(fld, surf, (bx, ua, ub), (by, va, vb))
+            rhs = call(A.circulation_along_surface_boundary, fld, surf, (bx, ua, ub), (by, va, vb))
         else:
             surf = parse(case["surface"])
             (ua, ub), (va, vb) = [parse(l) for l in case["limits"]]
-            rhs = A.circulation_along_surface_boundary(fld, surf, (U, ua, ub), (V, va, vb))
+            rhs = call(A.circulation_along_surface_boundary, fld, surf, (U, ua, ub), (V, va, vb))
         lhs = 0
         for seg in case["boundary"]:
             tr = parse(seg["trajectory"])
             t0, t1 = parse(seg["limits"])
-            lhs += A.circulation_along_curve(fld, tr, (T, t0, t1))
+            lhs += call(A.circulation_along_curve, fld, tr, (T, t0, t1))
         detail = {"circulation_along_curve": str(lhs), "circulation_along_surface_boundary": str(rhs)}
         ok = is_zero(lhs - rhs) and free_of_coordinates(lhs) and free_of_coordinates(rhs)
     elif kind == "green":        # flux across closed curve vs divergence over the region
@@ -447,18 +467,18 @@ def run_case(case, cs=None):
         for seg in case["boundary"]:
             tr = parse(seg["trajectory"])
             t0, t1 = parse(seg["limits"])
-            lhs += A.flux_across_curve(fld, tr, (T, t0, t1))
+            lhs += call(A.flux_across_curve, fld, tr, (T, t0, t1))
         reg = case["region"]
         if reg["type"] == "base_scalars":       # non-parametrised: the base scalars are the parameters
             bx, by = cs.coord_system.base_scalars()[0], cs.coord_system.base_scalars()[1]
             loc = {"x": bx, "y": by}
             lim1 = [sympy.sympify(e, locals=loc) for e in reg["xlimits"]]
             lim2 = [sympy.sympify(e, locals=loc) for e in reg["ylimits"]]
-            rhs = A.flux_across_surface_boundary(fld, [bx, by], (bx, lim1[0], lim1[1]), (by, lim2[0], lim2[1]))
+            rhs = call(A.flux_across_surface_boundary, fld, [bx, by], (bx, lim1[0], lim1[1]), (by, lim2[0], lim2[1]))
         else:
             surf = parse(reg["surface"])
             (ua, ub), (va, vb) = [parse(l) for l in reg["limits"]]
-            rhs = A.flux_across_surface_boundary(fld, surf, (U, ua, ub), (V, va, vb))
+            rhs = call(A.flux_across_surface_boundary, fld, surf, (U, ua, ub), (V, va, vb))
         detail = {"flux_across_curve": str(lhs), "flux_across_surface_boundary": str(rhs)}
         ok = is_zero(lhs - rhs) and free_of_coordinates(lhs) and free_of_coordinates(rhs)
     elif kind == "gauss":        # six faces vs volume
@@ -468,8 +488,8 @@ def run_case(case, cs=None):
                  ([U, V, b3], (a1, b1), (a2, b2)), ([V, U, a3], (a2, b2), (a1, b1))]
         lhs = 0
         for surf, lu, lv in faces:
-            lhs += A.flux_across_surface(fld, surf, (U, lu[0], lu[1]), (V, lv[0], lv[1]))
-        rhs = A.flux_across_volume_boundary(fld, (a1, b1), (a2, b2), (a3, b3))
+            lhs += call(A.flux_across_surface, fld, surf, (U, lu[0], lu[1]), (V, lv[0], lv[1]))
+        rhs = call(A.flux_across_volume_boundary, fld, (a1, b1), (a2, b2), (a3, b3))
         detail = {"flux_across_surface(6 faces)": str(lhs), "flux_across_volume_boundary": str(rhs)}
         ok = is_zero(lhs - rhs) and free_of_coordinates(lhs) and free_of_coordinates(rhs)
     elif kind == "gauss_curvilinear":   # coordinate box of a cylindrical / spherical system vs Cartesian boundary flux
@@ -478,20 +498,20 @@ def run_case(case, cs=None):
             for e in case["field_local"]]
         fq = field_of(c2, [(lambda a_, b_, c_, e=e: e.subs(dict(zip(q, (a_, b_, c_))), simultaneous=True)) for e in Fq], path)
         lims = [parse(l) for l in case["box"]]
-        rhs = A.flux_across_volume_boundary(fq, tuple(lims[0]), tuple(lims[1]), tuple(lims[2]))
+        rhs = call(A.flux_across_volume_boundary, fq, tuple(lims[0]), tuple(lims[1]), tuple(lims[2]))
         lhs = 0
         for f in case["faces"]:
-            lhs += A.flux_across_surface(fld, parse(f["surface"]), (U, *parse(f["ulimits"])), (V, *parse(f["vlimits"])))
+            lhs += call(A.flux_across_surface, fld, parse(f["surface"]), (U, *parse(f["ulimits"])), (V, *parse(f["vlimits"])))
         detail = {"flux_across_surface(faces, Cartesian)": str(lhs), "flux_across_volume_boundary": str(rhs)}
         ok = is_zero(lhs - rhs) and free_of_coordinates(rhs)
     elif kind in ("reparam", "reverse"):
         fn = {"circulation": A.circulation_along_curve, "flux_curve": A.flux_across_curve}[case["function"]]
         tr = parse(case["trajectory"])
         t0, t1 = parse(case["limits"])
-        base = fn(fld, tr, (T, t0, t1))
+        base = call(fn, fld, tr, (T, t0, t1))
         tr2 = parse(case["trajectory2"])
         s0, s1 = parse(case["limits2"])
-        other = fn(fld, tr2, (T, s0, s1))
+        other = call(fn, fld, tr2, (T, s0, s1))
         detail = {"original": str(base), "transformed": str(other)}
         ok = is_zero(base - other) if kind == "reparam" else is_zero(base + other)
         ok = ok and free_of_coordinates(base) and free_of_coordinates(other)
@@ -499,20 +519,23 @@ def run_case(case, cs=None):
         surf = parse(case["surface"])
         (ua, ub), (va, vb) = [parse(l) for l in case["limits"]]
         swapped = [e.subs({U: V, V: U}, simultaneous=True) for e in surf]
-        f1 = A.flux_across_surface(fld, surf, (U, ua, ub), (V, va, vb))
-        f2 = A.flux_across_surface(fld, swapped, (U, va, vb), (V, ua, ub))
-        c1_ = A.circulation_along_surface_boundary(fld, surf, (U, ua, ub), (V, va, vb))
-        c2_ = A.circulation_along_surface_boundary(fld, swapped, (U, va, vb), (V, ua, ub))
+        f1 = call(A.flux_across_surface, fld, surf, (U, ua, ub), (V, va, vb))
+        f2 = call(A.flux_across_surface, fld, swapped, (U, va, vb), (V, ua, ub))
+        c1_ = call(A.circulation_along_surface_boundary, fld, surf, (U, ua, ub), (V, va, vb))
+        c2_ = call(A.circulation_along_surface_boundary, fld, swapped, (U, va, vb), (V, ua, ub))
         detail = {"flux": str(f1), "flux_swapped": str(f2), "circulation": str(c1_), "circulation_swapped": str(c2_)}
         ok = is_zero(f1 + f2) and is_zero(c1_ + c2_) and free_of_coordinates(f1) and free_of_coordinates(c1_)
         # the planar projection: the |dS| integral of flux_across_surface_boundary is orientation independent
         lin = lam_field(cs, parse(case["linear_field"]), path)
-        b1_ = A.flux_across_surface_boundary(lin, surf[:2], (U, ua, ub), (V, va, vb))
-        b2_ = A.flux_across_surface_boundary(lin, swapped[:2], (U, va, vb), (V, ua, ub))
+        b1_ = call(A.flux_across_surface_boundary, lin, surf[:2], (U, ua, ub), (V, va, vb))
+        b2_ = call(A.flux_across_surface_boundary, lin, swapped[:2], (U, va, vb), (V, ua, ub))
         detail.update({"boundary_flux": str(b1_), "boundary_flux_swapped": str(b2_)})
         ok = ok and is_zero(b1_ - b2_)
     else:
         raise ValueError(kind)
+    if skipped:
+        detail["no_integrand"] = skipped
+        ok = False
     return ok, detail
 
 
@@ -605,6 +628,29 @@ def gen_cases(rng, tier_quick, only=None):
             "field": [S(COEF[0] * Z + Y + rand_mono(rng, [X, Y], 2)), S(X * Z + COEF[1] * Z + rand_mono(rng, [X, Y], 2))],
             "surface": [S(U * cos(V)), S(U * sin(V)), S(1 - U**2)], "limits": [["0", "1"], ["0", S(2 * pi)]],
             "boundary": circle_boundary(1, 1, sympy.Integer(0))})
+    # Gauss on boxes with constant numeric limits: every combination of intervals symmetric / not symmetric about 0, with
+    # fields whose divergence is odd / even / mixed under the reflection through the origin
+    sym = [["-1", "1"], ["-2", "2"], ["-3/2", "3/2"]]
+    asym = [["0", "1"], ["-1", "2"], ["0", "3"]]
+    gfields = [["x**2 + y*z", "cos(y) + 3*x**2", "z**2 - x*y"], ["x**3", "y", "z*x**2"], ["x**2 + x", "y*z", "a*z**2"]]
+    for m in range(8):
+        box = [(sym if (m >> k) & 1 else asym)[k] for k in range(3)]
+        for fi, gf in enumerate(gfields):
+            if tier_quick and fi != m % 3 and fi != 0:
+                continue
+            add({"kind": "gauss", "field": gf, "box": box})
+    # Stokes cases built FROM the curve: closed curve with implicit equation g(x, y) = 0, fields whose curl_z = g*h vanishes on
+    # the curve but not inside (Q = integral of g*h dx, or P = -integral of g*h dy)
+    for a_, b_ in ((1, 1), (2, 1)) if tier_quick else ((1, 1), (2, 1), (1, 3)):
+        g = X**2 / a_**2 + Y**2 / b_**2 - 1
+        for k, h in enumerate([sympy.Integer(1), Y + 2, COEF[0] * X + 3]):
+            if tier_quick and k == 2:
+                continue
+            fq = [sympy.Integer(0), sympy.integrate(sympy.expand(g * h), X), sympy.Integer(0)]
+            fp = [-sympy.integrate(sympy.expand(g * h), Y), sympy.Integer(0), Z]
+            for f in (fq, fp) if k == 0 else (fq,):
+                add({"kind": "stokes", "field": [S(e) for e in f], "surface": [S(a_ * U * cos(V)), S(b_ * U * sin(V))],
+                    "limits": [["0", "1"], ["0", S(2 * pi)]], "boundary": circle_boundary(a_, b_)})
     # stored value lists of constants
     add({"kind": "stokes", "path": "list", "field": ["a", "b", "2"], "surface": [S(U * cos(V)), S(2 * U * sin(V)), S(U**2)],
         "limits": [["0", "1"], ["0", S(2 * pi)]], "boundary": circle_boundary(1, 2, sympy.Integer(1))})
